@@ -266,7 +266,7 @@ def subchecks(tier):
                      excluded=common.EXCL["C20"])
     cont = S.Profile([f for f in ALLOWED if f != "zero_service"] + ["exact"], weights=w, required=("exact",), numeric="cont", max_nodes=3, max_classes=3,
                      plans=("max_time",), horizon=(5.0, 14.0), budget=800, resumptions=(1, 1),
-                     excluded=common.EXCL["C20"] + ("exact_low_precision",))
+                     excluded=common.EXCL["C20"] + ("floatcmp_precision",))
     from ..sysprop import system_subcheck
     wa = dict(w, priorities=0.6, prio_preempt=0.7, sched_preempt=0.6)
     audit = S.Profile(ALLOWED + ["exact"], weights=wa, required=("exact",), numeric="decgrid", max_nodes=3, max_classes=3, plans=("max_time",),
